@@ -456,6 +456,22 @@ class _Inliner:
         """-> (statements, value expression or None) of the helper with parameters replaced; None when the shape is not supported"""
         import copy
         body = copy.deepcopy(self.body_of(fn))
+        # `if c: return X` ... `return Y` with nothing else: one conditional expression
+        def as_expression(stmts):
+            if len(stmts) == 1 and isinstance(stmts[0], ast.Return) and stmts[0].value is not None:
+                return stmts[0].value
+            if stmts and isinstance(stmts[0], ast.If) and len(stmts[0].body) == 1 and isinstance(stmts[0].body[0], ast.Return) and stmts[0].body[0].value is not None:
+                rest = stmts[0].orelse if stmts[0].orelse else stmts[1:]
+                if stmts[0].orelse and len(stmts) > 1:
+                    return None
+                other = as_expression(rest)
+                if other is not None:
+                    return ast.IfExp(test=stmts[0].test, body=stmts[0].body[0].value, orelse=other)
+            return None
+        if len(body) > 1 or (body and isinstance(body[0], ast.If)):
+            e = as_expression(body)
+            if e is not None:
+                body = [ast.Return(value=e)]
         value = None
         if body and isinstance(body[-1], ast.Return) and body[-1].value is not None:
             value = body[-1].value
@@ -615,9 +631,6 @@ class _Inliner:
                 self.generic_visit(node)
                 h, first = inl.helper_for(node, cls)
                 if h is None or h is fn:
-                    return node
-                body = inl.body_of(h)
-                if len(body) != 1 or not isinstance(body[0], ast.Return) or body[0].value is None:
                     return node
                 mp = inl.bind(h, node, first)
                 if mp is None:
